@@ -133,8 +133,10 @@ func CoordinatesHint(hint *Hint) int {
 	usedY := 0
 	lines := strings.Split(text, term.ClearLineAfter)
 
-	for i, line := range lines {
-		x, y := strutil.LineSpan([]rune(line), i, 0)
+	// Each section is counted by itself (as a first line): passing its index
+	// would count one more row for every section after the first one.
+	for _, line := range lines {
+		x, y := strutil.LineSpan([]rune(line), 0, 0)
 		if x != 0 {
 			y++
 		}
